@@ -4,6 +4,10 @@ TB = ("Trusted: Lean 4.33 kernel (axioms at most propext, Classical.choice, Quot
       "the hand-written model, tied to the code only by the correspondence run (differential testing of the model's executable definitions against the real crate on generated and enumerated inputs); "
       "SHA-256 as a free term algebra. ")
 TEXT = {
+    "C09": {
+        "text": "Theorems for every sequence of server requests (any interleaving of any number of devices at request granularity): each request leaves the server log unchanged or as a prefix followed by exactly the accepted patch; the storage/tree invariant is preserved; every state-changing request answers accepted / conflict / error; the paged ancestor scan always makes progress (no hang); no accepted event is dropped when the rewound records are contained in the applied patch (partial) and the unrestricted statement is refuted by a witness schedule, reproduced on the real server (recorded finding). Tie: real devices' sync calls run concurrently against real server storage with a harness scheduler releasing one request at a time in generated orders; server logs are checked after every request.",
+        "note": TB + "Partial: tokio/OS scheduling inside a request and lock fairness are runtime behaviour outside the model.",
+    },
     "C04": {
         "text": "Theorems about one sync call on one log for all logs of any length: agreeing logs are left alone; a proper prefix on either side is fast-forwarded to equality in one call; two different suffixes on a shared prefix converge in one call to prefix ++ stable-time-sorted union, provided no commit hash occurs twice (auto_merge_converges_partial); the negation without that hypothesis is a proved witness and a recorded finding. The model (compare/offer/scan/merge/rewind composition) is tied to the real stack: every sync call of generated multi-device histories against real server storage is replayed per log on the model and must produce the same record sequences on both sides.",
         "note": TB + "Modelled rather than verified: request transport (in-process client calling server_helpers like the handlers), storage as in C06. Partial: composition over all devices/orders validated by histories, not proved.",
